@@ -27,7 +27,7 @@ PROPS = {
             'Grpc::apply_compression_config (for loop over a const slice with a reference pattern) and the generated code that picks the call shape are not under contract',
         ]),
     'C16': dict(
-        units=['webserver', 'webservice'], level='proof',
+        units=['webserver', 'webservice', 'webtrailers'], level='proof',
         not_covered=[
             'encode_trailers is under contract through the assumed HeaderMap::iter / Iterator::fold contracts (A-http-28, A-core-20) with three logged let-introductions (R20); a rewrite of it onto another iterator API (into_iter, for loops) leaves the shim and is reported undecided',
             'base64 itself (RFC 4648, decode of concatenated unpadded quanta) is assumed (A-b64-01); the whole-body statement follows from the per-call conservation clauses B1-B3 only under that assumption',
@@ -35,10 +35,10 @@ PROPS = {
             'CORS handling and the GrpcWebLayer wiring',
         ]),
     'C17': dict(
-        units=['webclient', 'webserver', 'webservice'], level='proof',
+        units=['webclient', 'webserver', 'webservice', 'webtrailers'], level='proof',
         witness=[dict(append_to='tonic-web/src/call.rs', module='replay/web_client_chunking.rs', crate='tonic-web', filter='verif_witness_web_client')],
         not_covered=[
-            'decode_trailers_frame (the HTTP/1 header-block parser: iterator adapters, HeaderName/HeaderValue::try_from, HeaderMap::append) is out of reach of both verifiers: that every name keeps its full value (colons, repeated names) is NOT decided here; a native witness test (replay/web_client_chunking.rs) exercises it when a violation is reported',
+            'decode_trailers_frame is under contract (unit webtrailers): its result is the row-by-row reading of the block (rows end at CRLF, split at the FIRST colon, one leading space dropped, appended in order), and lemma_trailers_block_roundtrip shows that the block the server side writes for entries with token names and values without a leading space reads back as exactly those entries; the iterator expressions in it are routed through assumed std contracts (A-core-26..29), HeaderName / HeaderValue::try_from through A-http-18/19',
             'poll_decode (binary mode) is linked in unit webclient as a callee contract and proved in unit webserver (N1/N2) over a general, possibly non-contiguous bytes::Buf (A-bytes-29)',
             'the client layer (GrpcWebClientService::call, its ResponseFuture, the client_request / client_response adapters) is under contract in unit webservice; GrpcWebClientLayer::layer is a constructor call',
         ]),
